@@ -99,6 +99,9 @@ static int vh_main(int argc, char **argv, vh_case_fn fn)
 			alarm(timeout);
 			fn(ntok, tok);
 			fflush(stdout);
+#ifdef VERIF_COV
+			{ extern void __gcov_dump(void); __gcov_dump(); }
+#endif
 			_exit(0);
 		}
 		if (pid < 0) { perror("fork"); return 2; }
